@@ -49,6 +49,7 @@ THEOREMS = [
     "Optyx.Props.VarsStepTie.exprVars_step",
     "Optyx.Props.VarsStepTie.step_unique",
     "Optyx.Props.VarsStepTie.matrixVariableGetVariables_text",
+    "Optyx.Props.StateTie.accessors_text",
     "Optyx.Props.PinsC13.anchors",
 ]
 ASSUMPTIONS = [
